@@ -8,7 +8,10 @@ T3 == MkCfg(<<[MkCmd(N_A, TRUE, FALSE, FALSE, FALSE, <<U8(D5)>>) EXCEPT !.implic
 T4 == MkCfg(<<MkCmd(N_AB, FALSE, FALSE, TRUE, FALSE, <<>>), MkCmd(N_AB, TRUE, TRUE, TRUE, TRUE, <<>>), [MkCmd(N_B, FALSE, FALSE, TRUE, FALSE, <<>>) EXCEPT !.only_test = TRUE]>>, 6, 6, 1, FALSE)
 T5 == MkCfg(<<MkCmd(N_ABA, FALSE, FALSE, TRUE, FALSE, <<>>), MkCmd(N_AB, FALSE, FALSE, TRUE, FALSE, <<>>), [MkCmd(N_A, FALSE, FALSE, TRUE, FALSE, <<>>) EXCEPT !.disable = TRUE]>>, 6, 6, 1, FALSE)
 
-MCTables == {T1, T2, T3, T4, T5}
+\* names equal ignoring case: the ordinary one is registered first, the implicit-write one later (registration order decides, also for implicit write)
+T6 == MkCfg(<<MkCmd(<<97>>, TRUE, FALSE, TRUE, FALSE, <<>>), [MkCmd(N_A, TRUE, FALSE, FALSE, FALSE, <<>>) EXCEPT !.implicit = TRUE], MkCmd(N_AB, TRUE, FALSE, TRUE, FALSE, <<>>)>>, 6, 6, 1, FALSE)
+
+MCTables == {T1, T2, T3, T4, T5, T6}
 MCBytes == {65, 84, 66, 97, 61, 63, 49, 13, 10}
 MCCodes == {RET_OK, RET_ERROR}
 Bounded == nbytes <= MaxBytes
